@@ -457,4 +457,31 @@ theorem canCast_congr {a a' b b' : Dtype} (h1 : isByte a = isByte a') (h2 : a.fl
   unfold canCast
   rw [h1, h2, h3, h4]
 
+/-! ### the builtin table -/
+
+/-- the check behind `getBuiltin_wf`, evaluated on the generated table -/
+def registeredOk (t : String) : Bool :=
+  match Gen.dtypeTuples.find? (fun e => e.1 == t) with
+  | some e => isPrimName e.2.1
+  | none => true
+
+theorem builtin_table_ok : ∀ e ∈ Gen.builtinMap, registeredOk e.2 = true := by decide
+
+theorem getBuiltin_wf (key : String) : (getBuiltin key).WF := by
+  unfold getBuiltin
+  cases hf : Gen.builtinMap.find? (fun e => e.1 == key) with
+  | none => simp [none_, Dtype.WF]
+  | some e =>
+    have hm : e ∈ Gen.builtinMap := List.mem_of_find?_eq_some hf
+    have hok := builtin_table_ok e hm
+    unfold registeredOk at hok
+    cases ht : Gen.dtypeTuples.find? (fun x => x.1 == e.2) with
+    | none =>
+      by_cases hp : isPrimName e.2 = true
+      · simp [registeredByName, ht, hp, Dtype.WF]
+      · simp [registeredByName, ht, hp, Dtype.WF]
+    | some x =>
+      simp only [ht] at hok
+      simp [registeredByName, ht, Dtype.WF, hok]
+
 end Occa.Dtype
